@@ -53,9 +53,17 @@ R3  one repetition vector (T-AGREE): COUNT is the number of cells per segment
     (cumsum(COUNT + 1) − 1)[:-1], deleted; WHOLE = repeat(length between
     consecutive way-points (lats, lons as received), COUNT); both by one
     distance function.
-R4  part-suffix agreement (T-ROLE): names carrying a first/second marker are
-    only combined with names of the same marker (the second split receives
-    the second length); concatenations join first then second of one stem.
+R4  part agreement by provenance (T-ROLE): what the antimeridian driver returns
+    is closed over the two split calls and the two share computations
+    (unpacking, the function that grids the halves, helpers, records opened).
+    Every array (lats, lons, integrated variables) a share computation receives
+    is a component of ONE split call's result, in the slot of its own role - the
+    role of a component is read from its value (what it is cut from), never
+    from a name; the two share computations are fed by the two different split
+    functions; the latitude / longitude / integrated outputs join the half of
+    the first split with the half of the second, in that order.  That the
+    second split scales with the second length is R1 (shares ≡ A/(A+B),
+    B/(A+B) through whatever carries the lengths).
 R5  ordering direction (shared with C05-R5): the rows of intersection
     coordinates that are sorted descending are those where the way-point
     coordinate of the SAME axis decreases, read from the coordinates (never
@@ -82,17 +90,6 @@ from ..resolve import resolve_call
 
 GRID = 'gridding/grid.py'
 SHARE_FN = 'Gridder._cell_idxs_touched_by_trajectory_with_state_and_integrated_vars'
-
-
-def marker(name: str) -> str | None:
-    t = re.split(r'[_\W]+', name.lower())
-    has1 = 'first' in t
-    has2 = 'second' in t
-    if has1 and not has2:
-        return 'first'
-    if has2 and not has1:
-        return 'second'
-    return None
 
 
 def _flat(t):
@@ -151,6 +148,9 @@ def _np_name(c: ast.Call) -> str | None:
         if n.startswith(p):
             return n[len(p):]
     return None
+
+
+ARRAY_INPLACE_METHODS = {'fill', 'put', 'partition', 'resize', 'itemset', 'byteswap'}      # ndarray methods that write the array itself
 
 
 _SINGLETONS = (ast.expr_context, ast.operator, ast.unaryop, ast.cmpop, ast.boolop)
@@ -278,9 +278,11 @@ class SeqView:
                     r = _root_name(kwarg(x, 'out'))     # ufunc(..., out=local): the local is written in place
                     if r:
                         gen.add(r)
-                if isinstance(x, ast.Call) and isinstance(x.func, ast.Attribute) and x.func.attr in MUTATING_METHODS:
+                if isinstance(x, ast.Call) and isinstance(x.func, ast.Attribute) and \
+                        (x.func.attr in MUTATING_METHODS or x.func.attr in ARRAY_INPLACE_METHODS):
                     r = _root_name(x.func.value)
-                    if r:
+                    # np.sort(x) / np.append(a, b) / np.put(...) are functions of the module, not alterations of it
+                    if r and r not in ('np', 'numpy', 'math') and not (x.func.attr in ARRAY_INPLACE_METHODS and r in ('self', 'cls')):
                         gen.add(r)
         return kill, gen - kill
 
@@ -1343,12 +1345,20 @@ class Values:
             callee = resolve_call(self.prog, fi, c)
         except Exception:
             callee = None
-        args = [rec(a) for a in c.args]
+        args = []
+        for a in (rec(a) for a in c.args):
+            # `*t` where t closes to a tuple display: the elements themselves
+            if isinstance(a, ast.Starred) and isinstance(a.value, (ast.Tuple, ast.List)) and \
+                    not any(isinstance(x, ast.Starred) for x in a.value.elts):
+                args += a.value.elts
+            else:
+                args.append(a)
+        starred = any(isinstance(a, ast.Starred) for a in args)
         kws = [ast.keyword(arg=k.arg, value=rec(k.value)) for k in c.keywords]
         from ..resolve import resolve_class_call
         ci = resolve_class_call(self.prog, fi, c) if isinstance(c.func, (ast.Name, ast.Attribute)) else None
         if ci is not None:
-            if not any(isinstance(a, ast.Starred) for a in c.args) and all(k.arg for k in c.keywords):
+            if not starred and all(k.arg for k in c.keywords):
                 fields = list(ci.annotated_fields())
                 got = dict(zip(fields, args))
                 got.update({k.arg: k.value for k in kws})
@@ -1370,7 +1380,7 @@ class Values:
         plain._ck = (callee.file, callee.qualname)
         key = id(callee.node)
         if key in stack or len(stack) > 8 or callee.node.name in self.keep or not self._openable(callee) or \
-                any(isinstance(a, ast.Starred) for a in c.args) or any(k.arg is None for k in c.keywords):
+                starred or any(k.arg is None for k in c.keywords):
             return plain
         # ---- open the callee: bind parameters, take what it returns ----
         a = callee.node.args
@@ -1416,6 +1426,13 @@ class Values:
         outs = []
         for r in live:
             v = self.close(callee, r.value, r, frozenset(), stack + (key,), depth + 1)
+            # a callee that alters one of its parameters in place: what it returns (MUT__ of the parameter) no longer says
+            # which argument it was given - the call stands for itself
+            for x in ast.walk(v):
+                if is_mk(x, MUT):
+                    f2, n2, _, _ = self._muts[x.args[0].value]
+                    if f2.node is callee.node and n2 in cview.params:
+                        return plain
             outs.append(_subst(v, binding))
         uniq = []
         for v in outs:
@@ -2578,6 +2595,13 @@ def rule_share(ctx, m):
             pend.put('C04-R3', fn, 'values expanded by the count vector',
                      (okc, ('number of touched cells per segment: ' + whatc) if okc else
                       f'the integrated values are repeated by {whatc}, not by the number of cells each segment touches'), line=line)
+            if is_mk(SH, MUT):
+                # a share held in a local that is patched in place afterwards (`s = N / D; s[mask] = c`): np.where(mask, c, N / D)
+                from .c05 import grid_states, patched_as_where
+                try:
+                    SH = patched_as_where(grid_states(ctx).expand(SH)) or SH
+                except Undecided:
+                    pass
             parts = split_share(SH)
             lv = share_leaves(SH) if parts is None else None
             if parts is None and lv is not None:
@@ -2694,52 +2718,174 @@ def rule_share(ctx, m):
     pend.flush()
 
 
-def rule_suffix(ctx, m, rule='C04-R4', only=None, name_filter=None):
-    """first/second marker agreement in the antimeridian code."""
-    prog = ctx.prog
-    fns = [m.func(q) for q in ('Gridder._grid_trajectory_with_dateline_crossing',
-                               'Gridder._dateline_split_first_segment', 'Gridder._dateline_split_second_segment',
-                               'Gridder._cell_idxs_and_variables_for_dateline_split_trajectory',
-                               'Gridder._calculate_segment_lengths')]
-    n = 0
-    for fn in fns:
-        for st in walk_no_nested(fn.node):
-            if isinstance(st, ast.Assign):
-                tnames = [x for t in st.targets for x in ast.walk(t) if isinstance(x, ast.Name)]
-                tm = {marker(x.id) for x in tnames} - {None}
-                if len(tm) != 1:
+SHARE_ROLES = ('lats', 'lons', 'altitudes', 'times', 'state_variables', 'integrated_variables')
+DRIVER_FN = 'Gridder._grid_trajectory_with_dateline_crossing'
+
+
+def part_values(ctx):
+    """closed values in which the two split functions, the length computation and the share computation stand for
+    themselves: what the antimeridian driver returns is then written over the results of those calls"""
+    v = ctx.__dict__.get('_part_values')
+    if v is None:
+        v = ctx._part_values = Values(ctx.prog, keep=(DIST_FN, 'crosses_dateline', SHARE_FN.split('.')[-1], HZ_FN.split('.')[-1],
+                                                      '_calculate_segment_lengths') + tuple(q.split('.')[-1] for _, q in SPLITS))
+    return v
+
+
+def _split_component_roles(ctx, m, V):
+    """({(part, position): parameter of the split function that component is built from}, {(part, leaf text): position}) -
+    the role of a component of what a split function returns is decided by its value (the way-points / variable it is cut
+    from), not by the name it is returned under"""
+    from .c05 import _role_sequences
+    by_pos, pos_of = {}, {}
+    for part, qn in SPLITS:
+        sp = m.func(qn)
+        view = SeqView(sp, ctx.prog)
+        rows = [ret_elts(view, r) for r in view.returns()]
+        if not rows or len({len(row) for row in rows}) != 1:
+            raise Undecided(f'{sp.name} does not return one tuple / record of parts on every path')
+        for i in range(len(rows[0])):
+            roles = set()
+            for row in rows:
+                try:
+                    roles.add(_role_sequences(view, *row[i])[0])
+                except Undecided:
+                    roles.add(None)
+            by_pos[(part, i)] = roles.pop() if len(roles) == 1 else None
+        shape = V._result_shape(sp)
+        if isinstance(shape, dict):
+            for (i, f), name in shape.items():
+                if not isinstance(name, dict):
+                    pos_of[(part, leaf_role(name) or name)] = i
+    return by_pos, pos_of
+
+
+def rule_suffix(ctx, m, rule='C04-R4', tracked=SHARE_ROLES, outputs=range(6)):
+    """T-ROLE by provenance.  What the antimeridian driver returns is closed over the calls of the two split functions and
+    of the share computation (everything in between - unpacking, the function that grids the two halves, helpers,
+    records - opened).  Then, whatever the names on the way:
+      * every array a share computation receives is a component of ONE split call's result, in the slot of its own role
+        (the component cut from `lats` arrives as `lats`, ...) - the role of a component is read from its value;
+      * the two share computations take their arrays from the two different split functions;
+      * every output joins the part computed from the first split with the part computed from the second, in that order.
+    The lengths the split functions scale the crossing element with are decided in C04-R1 (shares ≡ A/(A+B), B/(A+B))."""
+    from .c05 import _bind_args
+    V = part_values(ctx)
+    gc = m.func(DRIVER_FN)
+    share = m.func(SHARE_FN)
+    part_of = {q: part for part, q in SPLITS}
+    comp_role, pos_of = _split_component_roles(ctx, m, V)
+    pend = Pending(ctx)
+    is_split = lambda c: isinstance(c, ast.Call) and getattr(c, '_ck', (None, None))[1] in part_of
+
+    def split_of(e):
+        """(part, split call, role of the component) when `e` is a component of a split call's result (named leaf of the
+        returned structure, or read by position)"""
+        e = strip_casts(e)
+        bt = pm_any(['tuple(X_)', 'list(X_)'], e)
+        if bt is not None:
+            e = strip_casts(bt['X_'])
+        if is_mk(e, RES) and is_split(e.args[0]):
+            part = part_of[e.args[0]._ck[1]]
+            return part, e.args[0], comp_role.get((part, pos_of.get((part, e.args[1].value))))
+        if isinstance(e, ast.Subscript) and is_split(e.value) and isinstance(const_value(e.slice), int):
+            part = part_of[e.value._ck[1]]
+            i = const_value(e.slice)
+            return part, e.value, comp_role.get((part, i if i >= 0 else i + sum(1 for q, _ in comp_role if q == part)))
+        return None
+
+    def parts_in(e):
+        return {part_of[x._ck[1]] for x in ast.walk(e) if is_split(x)}
+
+    ncalls = nargs = njoin = 0
+    for r in V.view(gc).returns():
+        val = canon(V.close(gc, r.value, r))
+        calls = {}
+        for x in ast.walk(val):
+            if isinstance(x, ast.Call) and getattr(x, '_ck', None) == (share.file, share.qualname):
+                calls.setdefault(ast.dump(x), x)
+        if not calls:
+            continue            # the path that grids nothing (more than one crossing)
+        seen_parts = []
+        for c in calls.values():
+            ncalls += 1
+            bind = _bind_args(share, c)
+            if bind is None:
+                pend.put(rule, gc, f'{share.name}(…)', (None, 'call with * / ** arguments'))
+                continue
+            got = {}
+            for p in tracked:
+                if p not in bind:
                     continue
-                want = tm.pop()
-                # names used on the right-hand side (excluding the callee name itself)
-                bad = []
-                for x in ast.walk(st.value):
-                    if isinstance(x, ast.Name) and marker(x.id) not in (None, want):
-                        bad.append(x.id)
-                    if isinstance(x, ast.Attribute) and isinstance(x.ctx, ast.Load) and marker(x.attr) not in (None, want) \
-                            and not isinstance(getattr(x, '_parent', None), ast.Call):
-                        bad.append(x.attr)
-                    if isinstance(x, ast.Call) and isinstance(x.func, ast.Attribute) and marker(x.func.attr) not in (None, want):
-                        bad.append(x.func.attr + '()')
-                if name_filter is not None:
-                    bad = [b for b in bad if name_filter(b)]
-                n += 1
-                ctx.ob(rule, fn, f'{want}-part assignment to {norm(st.targets[0])[:50]}', not bad,
-                       f'only {want}-part inputs' if not bad else
-                       f'the {want} part is computed from {sorted(set(bad))}: data of the other part is used',
-                       line=st.lineno, nontrivial=bool(bad))
-        # concatenations [X_first…, X_second…]
-        for c in calls_in(fn.node):
-            if call_name(c) == 'np.concatenate' and c.args and isinstance(c.args[0], (ast.List, ast.Tuple)) and len(c.args[0].elts) == 2:
-                a, b = c.args[0].elts
-                if isinstance(a, ast.Name) and isinstance(b, ast.Name) and marker(a.id) and marker(b.id):
-                    if name_filter is not None and not (name_filter(a.id) or name_filter(b.id)):
+                for alt in alts(bind[p]):
+                    if (isinstance(alt, ast.Constant) and alt.value is None) or (isinstance(alt, ast.Tuple) and not alt.elts):
                         continue
-                    n += 1
-                    stem = lambda s: re.sub(r'_?(first|second)', '', s)
-                    ok = marker(a.id) == 'first' and marker(b.id) == 'second' and stem(a.id) == stem(b.id)
-                    ctx.ob(rule, fn, f'concatenate [{a.id}, {b.id}]', ok, 'first then second of the same quantity' if ok else
-                           'the two halves are joined in the wrong order or from different quantities', line=c.lineno)
-    ctx.floor(rule, n, 12, 'first/second-marked statements')
+                    so = split_of(alt)
+                    if so is None:
+                        pend.put(rule, gc, f'{share.name}({p}=…)', (None, f'`{show(alt, 60, top=True)}` is not a part returned by a split function'))
+                        continue
+                    got.setdefault(p, []).append(so)
+            mine = {part for sos in got.values() for part, _, _ in sos}
+            calls_ = {ast.dump(sc) for sos in got.values() for _, sc, _ in sos}
+            home = sorted(mine, key=lambda q: -sum(part == q for sos in got.values() for part, _, _ in sos))[0] if mine else None
+            seen_parts.append(home)
+            for p, sos in got.items():
+                for part, sc, role in sos:
+                    nargs += 1
+                    what = f'share computation of the {home} part receives `{p}`'
+                    if part != home or len(calls_) != len(mine):
+                        ctx.ob(rule, gc, what, False, f'the {home} part is computed from `{p}` of the {part} part: data of the other part is used'
+                               if part != home else f'`{p}` comes from another call of the {part} split than the other arrays', line=r.lineno)
+                    elif role is None:
+                        pend.put(rule, gc, what, (None, f'the role of the component `{show(sc.func, 40)}` returns there is not recognised'))
+                    else:
+                        ok = role == p
+                        ctx.ob(rule, gc, what, ok, f'the part of `{p}` the {part} split returns' if ok else
+                               f'the {part} split\'s part of `{role}` is passed where its part of `{p}` belongs', line=r.lineno)
+        if ncalls and sorted(x for x in seen_parts if x) != ['first', 'second']:
+            ctx.ob(rule, gc, 'the two halves are gridded from the two split functions', False,
+                   f'the share computations receive the parts {seen_parts}: one half of the trajectory is gridded twice / not at all',
+                   line=r.lineno)
+        # every output joins first-split-derived then second-split-derived
+        for pos in outputs:
+            out = V._select(val, pos)
+            if out is None:
+                pend.put(rule, gc, f'output #{pos}', (None, 'component not visible in the returned value'))
+                continue
+            for alt in alts(out):
+                joins = []
+
+                def collect(e, env):
+                    if isinstance(e, (ast.GeneratorExp, ast.ListComp)) and len(e.generators) == 1:
+                        g = e.generators[0]
+                        bz = pm('zip(P_, Q_)', g.iter)
+                        if bz is not None and isinstance(g.target, ast.Tuple) and len(g.target.elts) == 2 and \
+                                all(isinstance(t, ast.Name) for t in g.target.elts):
+                            env = dict(env, **{g.target.elts[0].id: bz['P_'], g.target.elts[1].id: bz['Q_']})
+                            collect(e.elt, env)
+                            return
+                    bj = pm_any(['np.concatenate((A_, B_))', 'np.hstack((A_, B_))', 'np.append(A_, B_)', 'np.concatenate((A_, B_), axis=0)',
+                                 'np.r_[A_, B_]'], e) if isinstance(e, (ast.Call, ast.Subscript)) else None
+                    if bj is not None:
+                        joins.append((_subst(bj['A_'], env), _subst(bj['B_'], env)))
+                        return
+                    for ch in ast.iter_child_nodes(e):
+                        collect(ch, env)
+                collect(alt, {})
+                for A, B in joins:
+                    pa, pb = parts_in(A), parts_in(B)
+                    if not pa and not pb:
+                        continue
+                    njoin += 1
+                    ok = pa == {'first'} and pb == {'second'}
+                    ctx.ob(rule, gc, f'output #{pos} joins the two halves', ok, 'first part then second part' if ok else
+                           (f'output #{pos} joins [{"/".join(sorted(pa)) or "?"} part | {"/".join(sorted(pb)) or "?"} part]: ' +
+                            ('the halves are joined against the direction of flight' if (pa, pb) == ({'second'}, {'first'}) else
+                             'data of one half is used for both / mixed')), line=r.lineno)
+    ctx.floor(rule + '/calls', ncalls, 2, 'share computations fed by the antimeridian driver')
+    ctx.floor(rule, nargs, 2 * min(len(tracked), 3), 'arrays handed from the split functions to the share computation')
+    ctx.floor(rule + '/joins', njoin, min(len(list(outputs)), 3), 'outputs that join the two halves')
+    pend.flush()
 
 
 def rule_passthrough(ctx, m):
@@ -2817,7 +2963,7 @@ def run(ctx):
         lambda: rule_split_sum(ctx, m),
         lambda: rule_share(ctx, m),
         # only names that bear on the integrated quantities: the values themselves, the split lengths and the geometry
-        lambda: rule_suffix(ctx, m, name_filter=lambda nme: re.search(r'integrated|length|lat|lon', nme) is not None),
+        lambda: rule_suffix(ctx, m, tracked=('lats', 'lons', 'integrated_variables'), outputs=(0, 1, 5)),
         # the horizontal cells a segment's pieces are cut at come from searching the axes themselves (shares sum to one
         # only if the start/end cells and the midpoint cells are found the same way)
         lambda: rule_lookup(ctx, m, 'C04-R7'),
